@@ -13,8 +13,8 @@
 (*   norder   "ok" | "less" | "more"                number of orders       *)
 (*   nknotv   "ok" | "less" | "more"                number of knot vectors *)
 (*   knots    "ok" | "unsorted" | "toofew" | "few"  toofew: < order+2 knots; few: order+2 .. 2*order+1 *)
-(*   nsmooth  "one" | "ndim" | "other"                                     *)
-(*   npen     "one" | "ndim" | "other"                                     *)
+(*   nsmooth  "one" | "ndim" | "other" | "empty"    number of smoothing strengths (other: a count that is neither 1 nor ndim) *)
+(*   npen     "one" | "ndim" | "other" | "empty"    number of penalty orders *)
 (*   penorder "ok" | "above" | "huge"               penalty order order+1 .. order+3; 2^32-1 *)
 (*   order    "ok" | "huge31" | "huge32" | "wrap"   spline order 2^31-1, 2^32-1, 2^31+3 (2*order+2 wraps to 0, 0, 8 in 32 bits) *)
 (*   monodim  "none" | "valid" | "ndim" | "huge"                           *)
@@ -23,7 +23,7 @@ EXTENDS Integers, Sequences, FiniteSets, TLC, Json
 
 Classes == [weights |-> {"ok", "short", "long", "empty"}, ncoord |-> {"ok", "less", "more"}, coordlen |-> {"ok", "short"},
             index |-> {"ok", "atrange"}, norder |-> {"ok", "less", "more"}, nknotv |-> {"ok", "less", "more"},
-            knots |-> {"ok", "unsorted", "toofew", "few"}, nsmooth |-> {"one", "ndim", "other"}, npen |-> {"one", "ndim", "other"},
+            knots |-> {"ok", "unsorted", "toofew", "few"}, nsmooth |-> {"one", "ndim", "other", "empty"}, npen |-> {"one", "ndim", "other", "empty"},
             penorder |-> {"ok", "above", "huge"}, monodim |-> {"none", "valid", "ndim", "huge"}, order |-> {"ok", "huge31", "huge32", "wrap"}]
 Args == DOMAIN Classes
 Good == [weights |-> "ok", ncoord |-> "ok", coordlen |-> "ok", index |-> "ok", norder |-> "ok", nknotv |-> "ok", knots |-> "ok",
